@@ -289,7 +289,9 @@ func runC11(b *runner.Batch) {
 					h.formerAdmin[name] = oldAdmin
 				}
 			case "renew":
-				run(e.opRenew(name, 1, false), users, c, a, m, rn)
+				// both forms of the method: renew(name, years) and the one-argument overload (seeded change C11-9: the
+				// overload taking a path of its own around the witness check)
+				run(e.opRenew(name, 1, r.IntN(2) == 0), users, c, a, m, rn)
 			case "updateSOA":
 				run(e.opUpdateSOA(name), users, c, a, m, rn)
 			case "addRecord":
